@@ -492,6 +492,13 @@ def scan_nn_sites(repo) -> list[dict]:
                     comp = isinstance(n.args[1], ast.UnaryOp) and isinstance(n.args[1].op, ast.Invert)
                     sites.append({"file": rel, "func": qual, "form": f".applyMask {'true' if comp else 'false'}",
                                   "kind": "apply_mask", "operand": ast.unparse(n.args[0]), "mask": ast.unparse(n.args[1]), "zero": "kspace"})
+                elif (isinstance(n.func, ast.Attribute) and n.func.attr in ("_forward_operator", "_backward_operator", "_A_star_op", "_A_star_A_op")
+                      and any(_masky(a) for a in n.args)):
+                    marg = [a for a in n.args if _masky(a)][0]
+                    comp = isinstance(marg, ast.UnaryOp) and isinstance(marg.op, ast.Invert)
+                    sites.append({"file": rel, "func": qual, "form": f".operatorCall {'true' if comp else 'false'}",
+                                  "kind": "operator-call:" + n.func.attr, "operand": ast.unparse(n.args[0]), "mask": ast.unparse(marg),
+                                  "zero": "kspace"})
                 elif isinstance(n.func, ast.Attribute) and n.func.attr in ("masked_fill", "masked_fill_", "masked_scatter"):
                     sites.append({"file": rel, "func": qual, "form": f'.flagged "{n.func.attr}"', "kind": n.func.attr,
                                   "operand": ast.unparse(n.func.value), "mask": ast.unparse(n.args[0]) if n.args else "", "zero": ""})
@@ -531,7 +538,7 @@ def _c03_extra_with_sites():
         text += "\n" + _sites_lean(sites)
         status["nn_mask_sites"] = f"translated ({len(sites)} sites)"
     except Exception as e:  # noqa: BLE001 - never an alarm by itself
-        text += f"\n/-- SKIPPED ({type(e).__name__}: {e}) -/\ndef nn_mask_sites : List Site := Mask.knownSites\n"
+        text += f"\n/-- SKIPPED ({type(e).__name__}: {e}) -/\ndef nn_mask_sites : List Site := []\n"
         status["nn_mask_sites"] = f"skipped: {e}"
     return text, status
 
